@@ -75,6 +75,14 @@ type input struct {
 	Vers         uint16   `json:"vers,omitempty"`
 	Scenario     string   `json:"scenario,omitempty"`
 	Seed         uint64   `json:"seed,omitempty"`
+	// TLS 1.3 decision
+	Suite   uint16   `json:"suite,omitempty"`
+	ModePSK bool     `json:"mode_plain,omitempty"` // psk_ke only (no psk_dhe_ke)
+	IDs     []string `json:"ids,omitempty"`
+	Secrets []string `json:"secrets,omitempty"`
+	Corrupt []bool   `json:"corrupt,omitempty"`
+	Expect  string   `json:"expect,omitempty"` // psk:<i> | none | abort
+
 	// state fields for marshal
 	SVers, SSuite uint16
 	SCreated      uint64
@@ -287,6 +295,8 @@ func run(c *vh.Ctx, in input) {
 		runUnmarshal13(c, in)
 	case "check12":
 		runCheck12(c, in)
+	case "check13":
+		runCheck13(c, in)
 	case "keys":
 		runKeys(c, in)
 	case "shake":
@@ -483,6 +493,84 @@ func runCheck12(c *vh.Ctx, in input) {
 		}
 	} else if in.Scenario == "valid" || in.Scenario == "old-key" || in.Scenario == "fresh-boundary" {
 		c.Violation("valid-ticket-not-resumed", "an authentic fresh ticket with offered and supported suite was not resumed ("+in.Scenario+")", "case", in)
+	}
+}
+
+func hash13Size(id uint16) int {
+	ids, hs := tls.VerifC31Suites13()
+	for i := range ids {
+		if ids[i] == id {
+			return hs[i]
+		}
+	}
+	return 0
+}
+
+func runCheck13(c *vh.Ctx, in input) {
+	keys := keysOf(in.Keys)
+	s := *in.Srv
+	var ids, secrets [][]byte
+	for _, x := range in.IDs {
+		ids = append(ids, vh.UnHex(x))
+	}
+	for _, x := range in.Secrets {
+		secrets = append(secrets, vh.UnHex(x))
+	}
+	out := tls.VerifC31Check13(tls.VerifC31Check13In{Keys: keys, TicketsDisabled: s.Disabled, Now: s.Now, ClientAuth: tls.ClientAuthType(s.Auth),
+		SuiteID: in.Suite, ModeDHE: !in.ModePSK, Identities: ids, Secrets: secrets, Corrupt: in.Corrupt})
+	if out.Panicked {
+		c.Violation("check13-panic", "checkForResumption (TLS 1.3) panicked", "case", in)
+		return
+	}
+	o := "(Some None)"
+	got := "none"
+	switch {
+	case out.Err:
+		o, got = "None", "abort"
+	case out.UsingPSK:
+		o, got = vh.Some(vh.Some(vh.NI(out.Selected))), fmt.Sprintf("psk:%d", out.Selected)
+	}
+	var bs []string
+	for i, sec := range secrets {
+		good := !(i < len(in.Corrupt) && in.Corrupt[i])
+		bs = append(bs, vh.Pair(vh.Bool(good), vh.Bytes(sec)))
+	}
+	var pts [][]byte
+	for _, id := range ids {
+		if pt, _, ok := refOpen(keys, id); ok {
+			pts = append(pts, pt)
+		}
+	}
+	c.Case("case", vh.App("CCheck13", coqKeys(keys), coqSrv(s), vh.NI(hash13Size(in.Suite)), vh.Bool(!in.ModePSK), coqBytesList(ids),
+		vh.List0(bs, "(bool * bytes)"), ksTable(keys, ids...), certTable(pts...), o), in, fmt.Sprintf("check13|%s|%s", in.Scenario, got))
+	// the property on the implementation alone
+	if out.UsingPSK {
+		sel := out.Selected
+		ok := sel < len(ids) && sel < len(secrets) && !s.Disabled && !in.ModePSK
+		if ok {
+			pt, _, opened := refOpen(keys, ids[sel])
+			st, parsed := tls.VerifC31UnmarshalState13(pt)
+			ok = opened && parsed && s.Now-int64(st.CreatedAt) <= 7*24*3600 && hash13Size(st.Suite) == hash13Size(in.Suite) && hash13Size(st.Suite) != 0 &&
+				bytes.Equal(st.Secret, secrets[sel]) && !(sel < len(in.Corrupt) && in.Corrupt[sel])
+		}
+		if !ok {
+			c.Violation("psk-from-unauthentic-ticket", fmt.Sprintf("TLS 1.3 server selected PSK identity %d, which is not an authentic fresh ticket with a matching binder (%s)", sel, in.Scenario), "case", in)
+		}
+	}
+	if out.Err && len(ids) == len(secrets) {
+		any := false
+		for i, id := range ids {
+			if pt, _, ok := refOpen(keys, id); ok && i < 5 {
+				_, parsed := tls.VerifC31UnmarshalState13(pt)
+				any = any || parsed
+			}
+		}
+		if !any {
+			c.Violation("psk-alert-without-authentic-ticket", "TLS 1.3 server aborted although no offered identity is an authentic ticket ("+in.Scenario+")", "case", in)
+		}
+	}
+	if in.Expect != "" && in.Expect != got {
+		c.Violation("psk-decision", fmt.Sprintf("TLS 1.3 resumption decision for scenario %s: got %s, the property demands %s", in.Scenario, got, in.Expect), "case", in)
 	}
 }
 
@@ -825,6 +913,8 @@ func runShake(c *vh.Ctx, in input) {
 		switch {
 		case o.cErr != nil || o.sErr != nil:
 			c.Violation("ticket-handshake-error", fmt.Sprintf("TLS %#04x, %s (%s): handshake failed instead of falling back: client %v, server %v", vers, sc.name, descMut(m), o.cErr, o.sErr), "case", single)
+		case o.sResum && !sc.resume && sc.name == "stale":
+			c.Violation("resumed-stale-ticket", fmt.Sprintf("TLS %#04x: server resumed from a ticket issued %d s ago", vers, sc.dt), "case", single)
 		case o.sResum && !sc.resume:
 			c.Violation("resumed-forged-ticket", fmt.Sprintf("TLS %#04x: server resumed from %s in scenario %s", vers, descMut(m), sc.name), "case", single)
 		case !o.sResum && sc.resume && sc.useNew:
@@ -1029,6 +1119,7 @@ func gen(c *vh.Ctx) {
 	run(c, input{Kind: "unmarshal12", Data: vh.Hex(good13)})
 	// ---- 4. the TLS 1.2 resumption decision
 	genCheck12(c, t0)
+	genCheck13(c, t0)
 	// ---- 5. key management histories
 	genKeys(c, t0)
 	// ---- 6. real handshakes
@@ -1171,6 +1262,131 @@ func genCheck12(c *vh.Ctx, t0 int64) {
 	tam[40] ^= 2
 	emit("tampered", A, s, tam, []uint16{0xc02f})
 	emit("empty-ticket", A, s, nil, []uint16{0xc02f})
+}
+
+func clientCertDER() []byte {
+	key, err := ecdsa.GenerateKey(elliptic.P256(), rand.Reader)
+	if err != nil {
+		panic(err)
+	}
+	tmpl := &x509.Certificate{SerialNumber: big.NewInt(7), Subject: pkix.Name{CommonName: "c31 client"},
+		NotBefore: time.Unix(1600000000, 0), NotAfter: time.Unix(2000000000, 0), KeyUsage: x509.KeyUsageDigitalSignature,
+		ExtKeyUsage: []x509.ExtKeyUsage{x509.ExtKeyUsageClientAuth}}
+	der, err := x509.CreateCertificate(rand.Reader, tmpl, tmpl, &key.PublicKey, key)
+	if err != nil {
+		panic(err)
+	}
+	return der
+}
+
+// the TLS 1.3 resumption decision through the hook
+func genCheck13(c *vh.Ctx, t0 int64) {
+	kA, kB := rkey(c, t0), rkey(c, t0)
+	A := []tls.VerifC31Key{kA}
+	type tk struct{ ticket, secret []byte }
+	mk := func(k tls.VerifC31Key, suite uint16, created int64, certs [][]byte) tk {
+		sec := c.Bytes(hash13Size(suite))
+		if len(sec) == 0 {
+			sec = c.Bytes(32)
+		}
+		pt, _ := tls.VerifC31MarshalState13(tls.VerifC31State13{Suite: suite, CreatedAt: uint64(created), Secret: sec, Certificates: certs})
+		t, err := tls.VerifC31Seal([]tls.VerifC31Key{k}, c.Bytes(16), pt)
+		if err != nil {
+			panic(err)
+		}
+		return tk{t, sec}
+	}
+	emit := func(name, expect string, keys []tls.VerifC31Key, s srvIn, suite uint16, plain bool, ids, secrets [][]byte, corrupt []bool) {
+		sc := s
+		var hi, hs []string
+		for _, x := range ids {
+			hi = append(hi, vh.Hex(x))
+		}
+		for _, x := range secrets {
+			hs = append(hs, vh.Hex(x))
+		}
+		run(c, input{Kind: "check13", Scenario: name, Expect: expect, Keys: hkeys(keys), Srv: &sc, Suite: suite, ModePSK: plain, IDs: hi, Secrets: hs, Corrupt: corrupt})
+	}
+	s := srvIn{Now: t0 + 100, Vers: 0x0304}
+	for _, suite := range []uint16{0x1301, 0x1302} {
+		v := mk(kA, suite, t0, nil)
+		one, sec := [][]byte{v.ticket}, [][]byte{v.secret}
+		emit("valid", "psk:0", A, s, suite, false, one, sec, nil)
+		emit("corrupt-binder", "abort", A, s, suite, false, one, sec, []bool{true})
+		emit("wrong-secret", "abort", A, s, suite, false, one, [][]byte{c.Bytes(len(v.secret))}, nil)
+		emit("mode-psk-ke-only", "none", A, s, suite, true, one, sec, nil)
+		sd := s
+		sd.Disabled = true
+		emit("disabled", "none", A, sd, suite, false, one, sec, nil)
+		emit("old-key", "psk:0", []tls.VerifC31Key{kB, kA}, s, suite, false, one, sec, nil)
+		emit("rotated-out", "none", []tls.VerifC31Key{kB}, s, suite, false, one, sec, nil)
+		tam := append([]byte{}, v.ticket...)
+		tam[len(tam)-5] ^= 8
+		emit("tampered", "none", A, s, suite, false, [][]byte{tam}, sec, nil)
+		emit("tampered-then-valid", "psk:1", A, s, suite, false, [][]byte{tam, v.ticket}, [][]byte{v.secret, v.secret}, nil)
+		emit("garbage-then-valid", "psk:1", A, s, suite, false, [][]byte{c.Bytes(40), v.ticket}, [][]byte{c.Bytes(len(v.secret)), v.secret}, nil)
+		emit("truncated", "none", A, s, suite, false, [][]byte{v.ticket[:len(v.ticket)-1]}, sec, nil)
+		emit("count-mismatch", "abort", A, s, suite, false, [][]byte{v.ticket, v.ticket}, sec, nil)
+		emit("count-mismatch-unauthentic", "abort", A, s, suite, false, [][]byte{c.Bytes(70), c.Bytes(70)}, sec, nil)
+		emit("no-identities", "none", A, s, suite, false, nil, nil, nil)
+		// at most five identities are examined
+		for _, pos := range []int{4, 5} {
+			var ids, secs [][]byte
+			for i := 0; i < 6; i++ {
+				if i == pos {
+					ids, secs = append(ids, v.ticket), append(secs, v.secret)
+				} else {
+					ids, secs = append(ids, c.Bytes(64+c.Intn(30))), append(secs, c.Bytes(len(v.secret)))
+				}
+			}
+			exp := "none"
+			if pos < 5 {
+				exp = fmt.Sprintf("psk:%d", pos)
+			}
+			emit("sixth-identity", exp, A, s, suite, false, ids, secs, nil)
+		}
+		// freshness
+		for _, d := range []int64{7 * 24 * 3600, 7*24*3600 + 1} {
+			sf := s
+			sf.Now = t0 + d
+			exp := "psk:0"
+			if d > 7*24*3600 {
+				exp = "none"
+			}
+			emit("freshness", exp, A, sf, suite, false, one, sec, nil)
+		}
+		// suite of the ticket: same hash resumes, other hash or unknown suite does not
+		for _, ts := range []uint16{0x1301, 0x1302, 0x1303, 0x1399, 0xc02f} {
+			w := mk(kA, ts, t0, nil)
+			exp := "none"
+			if hash13Size(ts) != 0 && hash13Size(ts) == hash13Size(suite) {
+				exp = "psk:0"
+			}
+			emit("ticket-suite", exp, A, s, suite, false, [][]byte{w.ticket}, [][]byte{w.secret}, nil)
+		}
+		// a TLS 1.2 session state under a valid seal
+		pt12, _ := tls.VerifC31MarshalState12(tls.VerifC31State12{Vers: 0x0303, Suite: 0xc02f, CreatedAt: uint64(t0), Master: c.Bytes(48)})
+		t12, _ := tls.VerifC31Seal(A, c.Bytes(16), pt12)
+		emit("tls12-ticket", "none", A, s, suite, false, [][]byte{t12}, [][]byte{c.Bytes(32)}, nil)
+	}
+	// client certificates carried in the ticket against the ClientAuth policy
+	der := clientCertDER()
+	for auth := 0; auth <= 2; auth++ {
+		for _, withCert := range []bool{false, true} {
+			var certs [][]byte
+			if withCert {
+				certs = [][]byte{der}
+			}
+			v := mk(kA, 0x1301, t0, certs)
+			sa := s
+			sa.Auth = auth
+			exp := "psk:0"
+			if (auth == 2 && !withCert) || (auth == 0 && withCert) {
+				exp = "none"
+			}
+			emit("client-cert-policy", exp, A, sa, 0x1301, false, [][]byte{v.ticket}, [][]byte{v.secret}, nil)
+		}
+	}
 }
 
 func genKeys(c *vh.Ctx, t0 int64) {
